@@ -1257,11 +1257,11 @@ pub mod serde {
                     where
                         S: de::SeqAccess<'de>,
                     {
-                        std::iter::repeat_with(|| seq.next_element())
+                        std::iter::repeat_with(|| seq.next_element::<String>())
                             .map_while(|e| {
                                 e.transpose().map(|res| {
                                     res.and_then(|amt| {
-                                        Amount::from_str_in(amt, Denomination::Monero)
+                                        Amount::from_str_in(&amt, Denomination::Monero)
                                             .map_err(|e| de::Error::custom(e.to_string()))
                                     })
                                 })
@@ -1290,11 +1290,11 @@ pub mod serde {
                     where
                         S: de::SeqAccess<'de>,
                     {
-                        std::iter::repeat_with(|| seq.next_element())
+                        std::iter::repeat_with(|| seq.next_element::<String>())
                             .map_while(|e| {
                                 e.transpose().map(|res| {
                                     res.and_then(|amt| {
-                                        SignedAmount::from_str_in(amt, Denomination::Monero)
+                                        SignedAmount::from_str_in(&amt, Denomination::Monero)
                                             .map_err(|e| de::Error::custom(e.to_string()))
                                     })
                                 })
